@@ -178,8 +178,9 @@ func (s *Stream) LogRequest(id string, req *http.Request) error {
 	ts := strconv.FormatInt(time.Now().UnixNano()/1000/1000, 10)
 	s.sendHeader(id, Request, ":timestamp", ts)
 
+	// A request that is not being handled by a proxy has no context.
 	ctx := martian.NewContext(req)
-	if ctx.IsAPIRequest() {
+	if ctx != nil && ctx.IsAPIRequest() {
 		s.sendHeader(id, Request, ":api", "true")
 	}
 
@@ -212,8 +213,9 @@ func (s *Stream) LogResponse(id string, res *http.Response) error {
 	ts := strconv.FormatInt(time.Now().UnixNano()/1000/1000, 10)
 	s.sendHeader(id, Response, ":timestamp", ts)
 
+	// res.Request may be nil or unknown to the proxy: no context then.
 	ctx := martian.NewContext(res.Request)
-	if ctx.IsAPIRequest() {
+	if ctx != nil && ctx.IsAPIRequest() {
 		s.sendHeader(id, Response, ":api", "true")
 	}
 
